@@ -468,14 +468,21 @@ class Parser:
         node.ctx = context
         return node
 
+    def literal_eval(self, token: TokenInfo) -> Any:
+        """Value of a string / bytes / number token; what is wrong with the literal itself is reported at the token."""
+        try:
+            return ast.literal_eval(token.string)
+        except SyntaxError as e:
+            self.raise_syntax_error_known_location(e.msg, token)
+
     def ensure_real(self, number: TokenInfo) -> float | int:
-        value = ast.literal_eval(number.string)
+        value = self.literal_eval(number)
         if not isinstance(value, float | int):
             self.raise_syntax_error_known_location("real number required in complex literal", number)
         return value
 
     def ensure_imaginary(self, number: TokenInfo) -> complex:
-        value = ast.literal_eval(number.string)
+        value = self.literal_eval(number)
         if not isinstance(value, complex):
             self.raise_syntax_error_known_location("imaginary number required in complex literal", number)
         return value
@@ -491,9 +498,9 @@ class Parser:
         return s.encode()[0]
 
     def _concat_strings_in_constant(self, parts: list[TokenInfo]) -> ast.Constant:
-        s = ast.literal_eval(parts[0].string)
+        s = self.literal_eval(parts[0])
         for ss in parts[1:]:
-            part = ast.literal_eval(ss.string)
+            part = self.literal_eval(ss)
             if isinstance(part, bytes) != isinstance(s, bytes):
                 self.raise_syntax_error_known_range(
                     "cannot mix bytes and nonbytes literals", parts[0], parts[-1]
@@ -595,7 +602,10 @@ class Parser:
                     text = re.sub(r'\\.|"', lambda m: m.group(0) if len(m.group(0)) > 1 else '\\"', part.value, flags=re.DOTALL)
                     if re.fullmatch(r"(?:[^\\]|\\.)*\\", text, flags=re.DOTALL):
                         text += "\\"
-                    part.value = ast.literal_eval(f'"""{text}"""')
+                    try:
+                        part.value = ast.literal_eval(f'"""{text}"""')
+                    except SyntaxError as e:
+                        self.raise_syntax_error_known_location(e.msg, part)
             elif isinstance(part.format_spec, ast.JoinedStr):
                 self._decode_fstring_parts(part.format_spec.values)
 
